@@ -129,6 +129,79 @@ Section Sound.
     apply in_flat_map. exists (type_of x). split; auto. apply in_map. assumption.
   Qed.
 
+  (* one-step unfolding of the mutual fixpoints (simpl cannot refold them under the section variables) *)
+  Lemma eval_eq r e : eval r e =
+    match e with
+    | EConst v => Some v
+    | EName x => value_of r x
+    | ETuple es => match eval_all r es with Some vs => Some (VTup vs) | None => None end
+    | EList es => match eval_all r es with Some vs => Some (sem_list vs) | None => None end
+    | EBin op a b => match eval r a, eval r b with Some x, Some y => sem_bin op x y | _, _ => None end
+    | ECmp op a b => match eval r a, eval r b with Some x, Some y => sem_cmp op x y | _, _ => None end
+    | EUn op a => match eval r a with Some x => sem_un op x | None => None end
+    | ESub k a b => match eval r a, eval r b with Some x, Some y => sem_sub k x y | _, _ => None end
+    | ECall k f args => match value_of r f, eval_all r args with
+                        | Some vf, Some vs => sem_call vf vs
+                        | _, _ => None
+                        end
+    | EOther es => match eval_all r es with Some vs => sem_other vs | None => None end
+    end.
+  Proof. destruct e; reflexivity. Qed.
+
+  Lemma eval_all_eq r es : eval_all r es =
+    match es with
+    | Enil => Some []
+    | Econs e rest => match eval r e, eval_all r rest with
+                      | Some v, Some vs => Some (v :: vs)
+                      | _, _ => None
+                      end
+    end.
+  Proof. destruct es; reflexivity. Qed.
+
+  Lemma infer_eq tm e : infer tm e =
+    match e with
+    | EConst v => res_value v
+    | EName x => name_types tm x
+    | ETuple es => match infer_all tm es with
+                   | Some ss => Some (map TTup (product ss))
+                   | None => None
+                   end
+    | EList es => res_list (infer_each tm es)
+    | EBin op a b => match infer tm a, infer tm b with
+                     | Some l, Some r => res_binop op l r
+                     | _, _ => None
+                     end
+    | ECmp op a b => match infer tm a, infer tm b with
+                     | Some l, Some r => res_compare op l r
+                     | _, _ => None
+                     end
+    | EUn op a => match infer tm a with Some l => res_unop op l | None => None end
+    | ESub k a b => match infer tm a, infer tm b with
+                    | Some l, Some r => res_slice k l r
+                    | _, _ => None
+                    end
+    | ECall k f args => res_call k f (name_types tm f) (infer_each tm args)
+    | EOther es => None
+    end.
+  Proof. destruct e; reflexivity. Qed.
+
+  Lemma infer_all_eq tm es : infer_all tm es =
+    match es with
+    | Enil => Some []
+    | Econs e r => match infer tm e, infer_all tm r with
+                   | Some s, Some ss => Some (s :: ss)
+                   | _, _ => None
+                   end
+    end.
+  Proof. destruct es; reflexivity. Qed.
+
+  Lemma infer_each_eq tm es : infer_each tm es =
+    match es with
+    | Enil => []
+    | Econs e r => infer tm e :: infer_each tm r
+    end.
+  Proof. destruct es; reflexivity. Qed.
+
   Lemma infer_sound_mut tm r :
     Inv tm r -> NoNL tm ->
     (forall e, reads_ok (reads e) -> forall v s, eval r e = Some v -> infer tm e = Some s -> In (type_of v) s) /\
@@ -138,53 +211,54 @@ Section Sound.
   Proof.
     intros I N.
     destruct T as [Hval [Hn [Hc [Hcall [Hbin [Hcmp [Hun [Hsub [Hlist Hunp]]]]]]]]].
-    apply expr_exprs_ind; cbn [Infer.eval Infer.eval_all Infer.infer Infer.infer_all Infer.infer_each reads reads_all].
-    - intros v _ v' s E R. inversion E; subst. eauto.
-    - intros x Ro v s E R. eapply name_sound; eauto. intros; apply Ro; simpl; auto.
-    - intros es IH Ro v s E R.
+    apply expr_exprs_ind; simpl.
+    - intros v _ v' s E R. rewrite eval_eq in E. rewrite infer_eq in R. inversion E; subst. eauto.
+    - intros x Ro v s E R. rewrite eval_eq in E. rewrite infer_eq in R. eapply name_sound; eauto. intros; apply Ro; simpl; auto.
+    - intros es IH Ro v s E R. rewrite eval_eq in E. rewrite infer_eq in R.
       destruct (eval_all r es) as [vs|] eqn:EA; [|discriminate]. inversion E; subst.
       destruct (infer_all tm es) as [ss|] eqn:IA; [|discriminate]. inversion R; subst.
       destruct (IH Ro vs eq_refl) as [H1 _]. simpl. apply in_map. apply product_sound. auto.
-    - intros es IH Ro v s E R.
+    - intros es IH Ro v s E R. rewrite eval_eq in E. rewrite infer_eq in R.
       destruct (eval_all r es) as [vs|] eqn:EA; [|discriminate]. inversion E; subst. eauto.
-    - intros op a IHa b IHb Ro v s E R.
+    - intros op a IHa b IHb Ro v s E R. rewrite eval_eq in E. rewrite infer_eq in R.
       destruct (eval r a) as [x|] eqn:Ea; [|discriminate]. destruct (eval r b) as [y|] eqn:Eb; [|discriminate].
       destruct (infer tm a) as [l|] eqn:Ia; [|discriminate]. destruct (infer tm b) as [rr|] eqn:Ib; [|discriminate].
       eapply Hbin; eauto.
       + eapply IHa; eauto. intros z Hz; apply Ro; apply in_or_app; auto.
       + eapply IHb; eauto. intros z Hz; apply Ro; apply in_or_app; auto.
-    - intros op a IHa b IHb Ro v s E R.
+    - intros op a IHa b IHb Ro v s E R. rewrite eval_eq in E. rewrite infer_eq in R.
       destruct (eval r a) as [x|] eqn:Ea; [|discriminate]. destruct (eval r b) as [y|] eqn:Eb; [|discriminate].
       destruct (infer tm a) as [l|] eqn:Ia; [|discriminate]. destruct (infer tm b) as [rr|] eqn:Ib; [|discriminate].
       eapply Hcmp; eauto.
       + eapply IHa; eauto. intros z Hz; apply Ro; apply in_or_app; auto.
       + eapply IHb; eauto. intros z Hz; apply Ro; apply in_or_app; auto.
-    - intros op a IHa Ro v s E R.
+    - intros op a IHa Ro v s E R. rewrite eval_eq in E. rewrite infer_eq in R.
       destruct (eval r a) as [x|] eqn:Ea; [|discriminate].
       destruct (infer tm a) as [l|] eqn:Ia; [|discriminate].
       eapply Hun; eauto.
-    - intros k a IHa b IHb Ro v s E R.
+    - intros k a IHa b IHb Ro v s E R. rewrite eval_eq in E. rewrite infer_eq in R.
       destruct (eval r a) as [x|] eqn:Ea; [|discriminate]. destruct (eval r b) as [y|] eqn:Eb; [|discriminate].
       destruct (infer tm a) as [l|] eqn:Ia; [|discriminate]. destruct (infer tm b) as [rr|] eqn:Ib; [|discriminate].
       eapply Hsub; eauto.
       + eapply IHa; eauto. intros z Hz; apply Ro; apply in_or_app; auto.
       + eapply IHb; eauto. intros z Hz; apply Ro; apply in_or_app; auto.
-    - intros k f args IH Ro v s E R.
+    - intros k f args IH Ro v s E R. rewrite eval_eq in E. rewrite infer_eq in R.
       destruct (value_of r f) as [vf|] eqn:Ef; [|discriminate].
       destruct (eval_all r args) as [vs|] eqn:EA; [|discriminate].
       assert (Ro' : reads_ok (reads_all args)) by (intros z Hz; apply Ro; simpl; auto).
       destruct (IH Ro' vs eq_refl) as [_ H2].
       eapply Hcall; eauto.
       intros sf Hsf. eapply name_sound; eauto. intros; apply Ro; simpl; auto.
-    - intros es _ _ v s _ R. discriminate.
-    - intros _ vs E. inversion E; subst. split; [intros ss H; inversion H; subst|]; constructor.
-    - intros e IHe es IHes Ro vs E.
+    - intros es _ _ v s _ R. rewrite infer_eq in R. discriminate.
+    - intros _ vs E. rewrite eval_all_eq in E. inversion E; subst. rewrite infer_each_eq.
+      split; [intros ss H; rewrite infer_all_eq in H; inversion H; subst|]; constructor.
+    - intros e IHe es IHes Ro vs E. rewrite eval_all_eq in E. rewrite infer_each_eq.
       destruct (eval r e) as [v|] eqn:Ee; [|discriminate].
       destruct (eval_all r es) as [vs'|] eqn:EA; [|discriminate]. inversion E; subst.
       assert (Ro1 : reads_ok (reads e)) by (intros z Hz; apply Ro; apply in_or_app; auto).
       assert (Ro2 : reads_ok (reads_all es)) by (intros z Hz; apply Ro; apply in_or_app; auto).
       destruct (IHes Ro2 vs' eq_refl) as [H1 H2]. split.
-      + intros ss H. destruct (infer tm e) as [s|] eqn:Ie; [|discriminate].
+      + intros ss H. rewrite infer_all_eq in H. destruct (infer tm e) as [s|] eqn:Ie; [|discriminate].
         destruct (infer_all tm es) as [ss'|] eqn:IA; [|discriminate]. inversion H; subst.
         constructor; eauto.
       + constructor; auto. intros s Hs. eapply IHe; eauto.
@@ -254,15 +328,15 @@ Section Sound.
     - destruct vs'; simpl in B; [|discriminate]. inversion B; subst. exact I.
     - destruct vs' as [|w ws]; simpl in B; [discriminate|].
       simpl in G. apply andb_prop in G. destruct G as [G1 G2]. simpl.
-      assert (Hw : nth_error vs i = Some w) by (replace i with (i + 0) by lia; apply Hn; reflexivity).
+      pose proof (Hn 0 w eq_refl) as Hw. rewrite Nat.add_0_r in Hw.
       assert (Hn' : forall j vj, nth_error ws j = Some vj -> nth_error vs (S i + j) = Some vj).
       { intros j vj Hj. replace (S i + j) with (i + S j) by lia. apply Hn. exact Hj. }
       destruct (res_unpack i s (res_value zero)) as [s'|] eqn:R.
       + change ((x, s') :: unpack_syms (S i) xs s) with ([(x, s')] ++ unpack_syms (S i) xs s).
-        rewrite upd_all_app. eapply IH; eauto.
+        rewrite upd_all_app. apply (IH (S i) ws (upd_all [(x, s')] tm) (set_env r x w) r'); auto.
         unfold upd_all. simpl. apply inv_set; auto. intros _. eapply Hunp; eauto.
       + simpl in G1. rewrite orb_false_r in G1. apply negb_true_iff in G1.
-        eapply IH; eauto. apply inv_set_skip; auto.
+        apply (IH (S i) ws tm (set_env r x w) r'); auto. apply inv_set_skip; auto.
   Qed.
 
   Lemma target_inv tm r t v s r' :
